@@ -130,8 +130,12 @@ Qed.
 Ltac w_same O := eapply W_same; [exact O| |]; reflexivity.
 Ltac w_sub O Ec := eapply W_sub; [exact O|exact Ec|reflexivity|intros _; split; reflexivity].
 
-Lemma W_take_blk : forall st t st', OnceW st -> take_blk st t = Some st' -> OnceW st'.
-Proof. intros st t st' O E. unfold take_blk in E. destruct (blk st); inversion E; subst. w_same O. Qed.
+Lemma W_with_node : forall st ty st1 n, OnceW st -> with_node st ty = Some (st1, n) -> OnceW st1.
+Proof.
+  intros st ty st1 n O E. eapply W_same; [exact O|apply (with_node_subs _ _ _ _ E)|].
+  unfold with_node in E. destruct (lookup st ty) as [sl m] eqn:El. destruct (nth_error (nodes sl) m); inversion E; subst. cbn.
+  unfold lookup in El. destruct (nth_error (bmap st) ty) as [[k|]|]; inversion El; reflexivity.
+Qed.
 Lemma W_try_drop : forall st ty st', OnceW st -> try_drop st ty = Some st' -> OnceW st'.
 Proof.
   intros st ty st' O E. unfold try_drop in E.
@@ -146,9 +150,10 @@ Proof.
   unfold step_emnew in E. destruct (nth_error (emitters st) j) as [m|]; [|discriminate].
   destruct (mnew m) as [|[|[|[|?]]]]; try discriminate.
   - inversion E; reflexivity.
-  - otau_inv E. unfold take_blk in E. destruct (blk st); inversion E; reflexivity.
-  - unfold lookup in E. destruct (nth_error (bmap st) (mty m)) as [[n|]|];
-      repeat match type of E with context[match ?x with _ => _ end] => destruct x end; inversion E; reflexivity.
+  - destruct (with_node st (mty m)) as [[st1 n]|] eqn:Ew; [|discriminate]. inversion E; subst. cbn.
+    unfold with_node in Ew. destruct (lookup st (mty m)) as [sl k] eqn:El. destruct (nth_error (nodes sl) k); inversion Ew; subst. cbn.
+    unfold lookup in El. destruct (nth_error (bmap st) (mty m)) as [[q|]|]; inversion El; reflexivity.
+  - repeat match type of E with context[match ?x with _ => _ end] => destruct x end; inversion E; reflexivity.
   - inversion E; reflexivity.
 Qed.
 
@@ -160,7 +165,7 @@ Proof.
   - destruct (Nat.eqb (mnew m) 4); inversion E; reflexivity.
   - destruct (mclosed m); inversion E; reflexivity.
   - destruct (nth_error (nodes st) (mnode m)); inversion E; reflexivity.
-  - otau_inv E. unfold take_blk in E. destruct (blk st); inversion E; reflexivity.
+  - inversion E; reflexivity.
   - otau_inv E. unfold try_drop in E.
     repeat match type of E with context[match ?x with _ => _ end] => destruct x end; inversion E; reflexivity.
   - inversion E; reflexivity.
@@ -172,16 +177,15 @@ Proof.
   destruct (nth_error (subs st) s) as [c|] eqn:Ec; [|discriminate].
   destruct (spc c) eqn:Ep.
   - destruct (styps c); inversion E; subst; w_sub O Ec.
-  - otau_inv E. eapply W_sub; [eapply W_take_blk; eassumption|rewrite (take_blk_subs _ _ _ E); exact Ec|reflexivity|intros _; split; reflexivity].
+  - destruct (styps c) as [tys|] eqn:Et; [|discriminate]. destruct (nth_error tys i) as [ty|]; [|discriminate].
+    destruct (with_node st ty) as [[st1 n]|] eqn:Ew; [|discriminate]. inversion E; subst.
+    eapply W_sub; [eapply W_with_node; eassumption|rewrite (with_node_subs _ _ _ _ Ew); exact Ec|reflexivity|intros _; split; reflexivity].
   - destruct (styps c) as [tys|] eqn:Et; [|discriminate].
-    destruct (nth_error tys i) as [ty|]; [|discriminate].
-    pose proof (W_lookup st ty O) as O1. pose proof (lookup_subs st ty) as Hl.
-    destruct (lookup st ty) as [st1 n]. cbn in O1, Hl.
-    destruct (nth_error (nodes st1) n) as [nd|]; [|discriminate].
+    destruct (nth_error (nodes st) n) as [nd|]; [|discriminate].
     destruct (holder nd); [discriminate|]. inversion E; subst.
-    eapply (W_sub (set_node (set_blk st1 None) n _) s c).
-    + eapply W_same; [exact O1| |]; reflexivity.
-    + cbn. rewrite Hl. exact Ec.
+    eapply (W_sub (set_node st n _) s c).
+    + eapply W_same; [exact O| |]; reflexivity.
+    + exact Ec.
     + destruct (keep nd); [destruct (nlast nd)|]; cbn; reflexivity.
     + intros X. congruence.
   - inversion E; subst. eapply W_sub; [eapply W_same; [exact O| |]; reflexivity|exact Ec|reflexivity|intros _; split; reflexivity].
@@ -231,7 +235,7 @@ Proof.
     destruct (nth_error (nodes st) n) as [nd|]; [|discriminate].
     destruct (holder nd); [discriminate|]. inversion E; subst.
     eapply W_sub; [eapply W_same; [exact O| |]; reflexivity|exact Ec|reflexivity|intros _; split; reflexivity].
-  - otau_inv E. eapply W_sub; [eapply W_take_blk; eassumption|rewrite (take_blk_subs _ _ _ E); exact Ec|reflexivity|intros _; split; reflexivity].
+  - inversion E; subst. w_sub O Ec.
   - destruct (nth_error (snodes c) i) as [n|]; [|discriminate].
     destruct (nth_error (nodes st) n) as [nd|]; [|discriminate].
     otau_inv E. eapply W_sub; [eapply W_try_drop; eassumption|rewrite (try_drop_subs _ _ _ E); exact Ec|reflexivity|intros _; split; reflexivity].
